@@ -62,11 +62,7 @@ def run(rep):
     rep.explanation = __doc__
     rep.trusted = ['syn parser and the abstract semantics of Engine A', 'naga process_overrides: keys are the decimal @id or the name; values are f64']
     crate = ogp.crate
-    hits = []
-    for q, v in ogp.summaries.items():
-        for t in E.find_templates(v, lambda t: 'pub struct OverrideConstants {' in E.tmpl_text(t)):
-            if t[3] == q:
-                hits.append((q, t))
+    hits = E.module_anchors(ogp, lambda t: 'pub struct OverrideConstants {' in E.tmpl_text(t))
     rep.floor('OverrideConstants template', len(hits), 1)
     if not hits:
         return
@@ -200,8 +196,8 @@ def run(rep):
               f'OverrideConstants is emitted for a module without overrides: {gate0}; expected exactly when the module has overrides (entry helpers take the parameter under the same condition)',
               ok_detail='emitted iff module.overrides is non-empty')
     n_h = 0
-    for q2, v in ogp.summaries.items():
-        for ht in E.find_templates(v, lambda t: t[3] == q2 and ('-> VertexEntry <' in E.tmpl_text(t) or '-> FragmentEntry <' in E.tmpl_text(t))):
+    for q2, ht in E.module_anchors(ogp, lambda t: '-> VertexEntry <' in E.tmpl_text(t) or '-> FragmentEntry <' in E.tmpl_text(t)):
+        if True:
             n_h += 1
             f2 = crate.fns[q2]
             w2 = f"{crate.relfile(f2['file'])} fn {f2['name']} (template at {ht[1]})"
